@@ -48,10 +48,12 @@ def _decode_escape_sequence(  # noqa: PLR0911
         return "\t", index
     if ch == "x":
         # TODO: handle incomplete \x escape sequence
-        return chr(int(value[index + 1 : index + 3], 16)), index + 3
+        return chr(int(value[index + 1 : index + 3], 16)), index + 2
     if ch == "u":
         codepoint, index = _decode_hex_char(value, index, token)
-        return chr(codepoint), index
+        # `index` is past the closing brace; the caller moves past the last
+        # character of the escape sequence.
+        return chr(codepoint), index - 1
 
     raise PestGrammarSyntaxError(
         f"unknown escape sequence at index {token.start + index - 1}",
